@@ -333,9 +333,9 @@ def check_nested_map_inputs(ctx, rule: str) -> None:
                 ok, why = not any(k.arg == "clone" for k in c.keywords), "translated inputs are forwarded unfiltered (allowed only when no clone setting is passed)"
                 if not ok:
                     why = "the nested map receives the inner graph's bound values as broadcast inputs together with the clone setting: clone=True deep-copies objects that were bound precisely to be shared"
-            elif isinstance(a1, ast.Name):
-                for d in db.local_defs(f).get(a1.id, []):
-                    v = getattr(d, "value", None)
+            elif isinstance(a1, (ast.Name, ast.DictComp)):
+                for d in ([a1] if isinstance(a1, ast.DictComp) else db.local_defs(f).get(a1.id, [])):
+                    v = d if isinstance(d, ast.DictComp) else getattr(d, "value", None)
                     if not (isinstance(v, ast.DictComp) and len(v.generators) == 1):
                         continue
                     g = v.generators[0]
